@@ -86,13 +86,32 @@ fn main() {
             }
         }
         if let Ok((_, raw)) = parse_tls_raw_record(i) {
+            // a call history on one parser: three fragments of the payload, interleaved with calls that must be refused
+            let n = raw.data.len();
+            let (a, rest) = raw.data.split_at(n / 3);
+            let (b2, c) = rest.split_at(rest.len() / 2);
+            let rec = |d| TlsRawRecord { hdr: raw.hdr, data: d };
+            let alert_hdr = TlsRecordHeader { record_type: TlsRecordType::Alert, version: raw.hdr.version, len: 2 };
+            let app_hdr = TlsRecordHeader { record_type: TlsRecordType::ApplicationData, version: raw.hdr.version, len: 3 };
             let mut d = TlsRecordsParser::default();
-            let half = raw.data.len() / 2;
-            let a = TlsRawRecord { hdr: raw.hdr, data: &raw.data[..half] };
-            let b2 = TlsRawRecord { hdr: raw.hdr, data: &raw.data[half..] };
-            fnv(&mut h, &format!("{:?}", d.parse_record(a)));
-            let s2 = format!("{:?}", d.parse_record(b2));
+            let s1 = format!("{:?}", d.parse_record(rec(a)));
+            fnv(&mut h, &format!("{} {}", s1, d.defrag_in_progress()));
+            let s2 = format!("{:?}", d.parse_record(TlsRawRecord { hdr: alert_hdr, data: &[1, 0] }));
             fnv(&mut h, &format!("{} {}", s2, d.defrag_in_progress()));
+            let s3 = format!("{:?}", d.parse_record_nocopy(rec(a)));
+            fnv(&mut h, &format!("{} {}", s3, d.defrag_in_progress()));
+            let s4 = format!("{:?}", d.parse_record(TlsRawRecord { hdr: app_hdr, data: &[1, 2, 3] }));
+            fnv(&mut h, &format!("{} {}", s4, d.defrag_in_progress()));
+            let s5 = format!("{:?}", d.parse_record(rec(b2)));
+            fnv(&mut h, &format!("{} {}", s5, d.defrag_in_progress()));
+            let s6 = format!("{:?}", d.parse_record(rec(c)));
+            fnv(&mut h, &format!("{} {}", s6, d.defrag_in_progress()));
+            // reuse after completion / after reset
+            let s7 = format!("{:?}", d.parse_record(rec(raw.data)));
+            fnv(&mut h, &format!("{} {}", s7, d.defrag_in_progress()));
+            d.reset();
+            let s8 = format!("{:?}", d.parse_record(rec(c)));
+            fnv(&mut h, &format!("{} {}", s8, d.defrag_in_progress()));
         }
         out.push_str(&format!("{} {} {:016x}\n", idx, ok, h));
     }
